@@ -52,6 +52,9 @@ mod verif_cex {
         file_name: &'static str,
         text: String,
         line_offsets: Vec<usize>,
+        /// byte offsets of the start tag's `<` and `>` in `text`
+        tag_lt: usize,
+        tag_gt: usize,
     }
 
     const LAYOUTS: usize = 6;
@@ -79,6 +82,8 @@ mod verif_cex {
             5 => ("f.rs", format!("  /* <block\n{sp}{}\n> */", attrs.replace("\" ", "\"\n   ")), "\n", "\n  // </block>\n"),
             _ => unreachable!(),
         };
+        let tag_lt = head.find("<block").unwrap();
+        let tag_gt = head.rfind('>').unwrap();
         let mut text = head;
         let mut line_offsets = Vec::new();
         for (i, l) in lines.iter().enumerate() {
@@ -90,7 +95,7 @@ mod verif_cex {
             text.push_str(first_sep);
         }
         text.push_str(tail);
-        Built { file_name, text, line_offsets }
+        Built { file_name, text, line_offsets, tag_lt, tag_gt }
     }
 
     /// Byte offset -> (1-based line, 1-based byte column), by counting newlines in the file text.
